@@ -371,7 +371,11 @@ def handleCamproj (w h : Nat) (f near far : Q) (req : Rect) (view : M4 Q) (p : V
   | .panic msg =>
     -- zero-size dims at perspective() time (empty intersection, order vp)
     let v := tagOnce v "degenerate-dims"
-    if isPanic impl || anyNonFinite (impl.take 60) then v else v.withDiff true s!"model: {msg}; implementation returns finite matrices"
+    if msg.startsWith "nonfinite:" then
+      -- Rust does not panic here: it returns a projection matrix with an infinite entry (aspect ratio w/0 = inf)
+      let v := tagOnce v "aspect-inf"
+      v.withDiff (isPanic impl || !anyNonFinite (impl.take 60)) s!"model: {msg}; implementation {if isPanic impl then "panics" else "returns finite matrices"}"
+    else v.withDiff (!isPanic impl) s!"model panics ({msg}); implementation returns"
   | .ok cam =>
     if isPanic impl then (v.withDiff true "implementation panics, model does not").withSpec sp.nonempty "camera-panics" s!"camera setup panics: {impl}"
     else
